@@ -195,10 +195,43 @@ package storage
 //@   ensures err == nil <==> db.faults == old(db.faults)
 //@   ensures err == nil ==> r0 != nil && mapsum.str(mapkeys(r0), mapvals(r0)) == db.redeemedtotal
 
-// sqlite refuses uint64 values with the high bit set
-//@ func (MintDB).SaveSeed
+// ---- seed and keysets (C09, C07)
+
+//@ func (MintDB).SaveSeed(seed)
 //@   trusted
-//@   modifies db.faults
+//@   modifies db.seedset, db.seed, db.faults
+//@   ensures err == nil ==> db.seedset && db.seed == bytes(seed)
+//@   ensures err != nil ==> db.seedset == old(db.seedset) && db.seed == old(db.seed)
+
 //@ func (MintDB).GetSeed
 //@   trusted
 //@   modifies db.faults
+//@   ensures err == nil <==> (db.faults == old(db.faults) && db.seedset)
+//@   ensures err == nil ==> bytes(r0) == db.seed
+//@   ensures err.is(err, sql.ErrNoRows) <==> (db.faults == old(db.faults) && !db.seedset)
+
+//@ func (MintDB).SaveKeyset(ks)
+//@   trusted
+//@   modifies db.ks, db.ksrow, db.faults
+//@   ensures err == nil <==> (db.faults == old(db.faults) && !old(db.ks)[ks.Id])
+//@   ensures err != nil ==> db.ks == old(db.ks) && db.ksrow == old(db.ksrow)
+//@   ensures err == nil ==> db.ks == upd(old(db.ks), ks.Id, true) && db.ksrow == upd(old(db.ksrow), ks.Id, ks)
+
+//@ func (MintDB).GetKeysets
+//@   trusted
+//@   modifies db.faults
+//@   ensures err == nil <==> db.faults == old(db.faults)
+//@   ensures err == nil ==> (forall j :: 0 <= j && j < len(r0) ==> db.ks[r0[j].Id] && r0[j] == db.ksrow[r0[j].Id])
+//@   ensures err == nil ==> (forall id Str :: db.ks[id] ==> (exists j :: 0 <= j && j < len(r0) && r0[j].Id == id))
+//@   ensures err == nil ==> (forall i, j :: 0 <= i && i < j && j < len(r0) ==> r0[i].Id != r0[j].Id)
+
+//@ func (MintDB).UpdateKeysetActive(keysetId, active)
+//@   trusted
+//@   modifies db.ksrow, db.faults
+//@   ensures err == nil <==> (db.faults == old(db.faults) && db.ks[keysetId])
+//@   ensures err != nil ==> db.ksrow == old(db.ksrow)
+//@   ensures err == nil ==> db.ksrow == upd(old(db.ksrow), keysetId, setfield(old(db.ksrow)[keysetId], "Active", active))
+
+//@ func (MintDB).Close
+//@   trusted
+//@   pure
